@@ -179,6 +179,15 @@ func policy(ps PeerSpec, tor *vh.Torrent, sentBad *atomic.Int64) *vh.SeederPolic
 				return out, true
 			}
 			return nil, true
+		case "chokedeliver": // choke with blocks in flight, still deliver them, then unchoke (an honest peer may do that)
+			if served == max(ps.K, 1) {
+				s.Send(vh.Msg{ID: vh.MsgChoke})
+				go func() {
+					time.Sleep(60 * time.Millisecond)
+					s.Send(vh.Msg{ID: vh.MsgUnchoke})
+				}()
+			}
+			return nil, false
 		case "chokeafter":
 			if served == max(ps.K, 1) {
 				go func() {
